@@ -147,7 +147,7 @@ def armijo_contract(n):
                     clause_text={"armijo-test": "continue halving iff loss(x + alpha y) > loss(x) + gamma alpha <y, grad loss(x)>"})
 
 
-def optimize_contract(n, mode, mu_given, start_given):
+def optimize_contract(n, mode, mu_given, start_given, prop="C11"):
     F, G, P, inC = funs(n)
 
     def make_inputs(md=None):
@@ -242,6 +242,25 @@ def optimize_contract(n, mode, mu_given, start_given):
     def outer_facts(ctx, t):
         return lemma_facts(ctx.env, ctx.ghost)
 
+    def stopping_quantity(ctx, t):
+        """the error value of one iteration is the documented quantity of the configured stopping mode"""
+        env = ctx.env
+        ev = env.get("error_value")
+        xp, xn, y = env.get("x_prev"), env.get("x_next"), env.get("y_prev")
+        if ev is None or xp is None or xn is None or y is None:
+            return [("error-value-is-the-documented-quantity", z3.BoolVal(False))]
+        xp, xn, y = vec(xp), vec(xn), vec(y)
+        fp, fn = F(*xp), F(*xn)
+        if mode == "single_difference_loss":
+            goal = ev == fp - fn
+        elif mode == "sum_absolute_difference_loss":
+            goal = ev == z3.If(fp - fn >= 0, fp - fn, fn - fp)
+        elif mode == "sum_absolute_difference_variable":
+            goal = z3.And(ev >= 0, ev * ev == z3.Sum([(a - b) * (a - b) for a, b in zip(xp, xn)]))
+        else:
+            goal = z3.And(ev >= 0, ev * ev == z3.Sum([a * a for a in y]))
+        return [("error-value-is-the-documented-quantity", goal)]
+
     def inner_inv(ctx, t):
         al = ctx.env["alpha"]
         return [("0<alpha<=1", z3.And(al > 0, al <= 1))]
@@ -268,17 +287,18 @@ def optimize_contract(n, mode, mu_given, start_given):
         return [("loss(result)<=loss(start)", F(*vec(v)) < F(*vec(g["xs"])))]
 
     shapes = dict(x_next=("opt", ("vec", n, "real")), error_values=("seq", "real"))
-    loops = {0: LoopSpec("for k in range(1, max_iteration + 1)", outer_inv, shapes=shapes, facts=outer_facts),
+    loops = {0: LoopSpec("for k in range(1, max_iteration + 1)", outer_inv, shapes=shapes, facts=outer_facts, body_post=stopping_quantity),
              1: LoopSpec("while self._is_doing_for_alpha(x_prev, y_prev, alpha, gamma, loss_function)", inner_inv)}
     result_cls = Func("ProjectedGradientDescentBacktrackingResult", lambda ctx, value, **kw: Obj("result", attrs=dict(value=value, **kw)))
     c = Contract(PG + ":ProjectedGradientDescentBacktracking.optimize", make_inputs, post, loops=loops, facts=facts, canary=canary,
                  globals_=dict(np=np_stub(n), ProjectedGradientDescentBacktrackingResult=result_cls),
-                 prop="C11", scope=f"unbounded: all iteration counts, all losses, all closed convex sets, all start points in C (vector length {n}, stopping mode {mode})",
+                 prop=prop, scope=f"unbounded: all iteration counts, all losses, all closed convex sets, all start points in C (vector length {n}, stopping mode {mode})",
                  clause_text={"loss-never-increases": "loss(x_{k+1}) <= loss(x_k) <= loss(x_0) at every iteration",
                               "x_next-feasible": "every iterate lies in C (convex combination of x_k and a projection)",
                               "x_prev-feasible": "the point the step is taken from lies in C",
                               "result-feasible": "the returned point lies in C", "loss(result)<=loss(start)": "the returned point is no worse than the start point",
-                              "0<alpha<=1": "step length stays in (0, 1]"})
+                              "0<alpha<=1": "step length stays in (0, 1]",
+                              "error-value-is-the-documented-quantity": "the per-iteration error value is loss difference / |loss difference| / |x_k - x_{k+1}| / |projected step| as the stopping mode says"})
     # the two arithmetic lemmas used (as instances) above, proved for all reals
     xv = [z3.Real(f"lx{i}") for i in range(n)]
     gv = [z3.Real(f"lg{i}") for i in range(n)]
